@@ -20,8 +20,31 @@ func Register(id string, f PropFunc) { registry[id] = f }
 // RegisterFixture adds a self-test run before the rules of property id.
 func RegisterFixture(id string, f func(c *eng.Ctx)) { fixtures[id] = append(fixtures[id], f) }
 
-// Get returns the rule set of a property.
-func Get(id string) (PropFunc, bool) { f, ok := registry[id]; return f, ok }
+var extras = map[string][]PropFunc{}
+
+// RegisterExtra adds rules that run after the registered rule set of property id (rule files
+// added later, e.g. after a seeded round, hook in here without touching the original file).
+func RegisterExtra(id string, f PropFunc) { extras[id] = append(extras[id], f) }
+
+// Get returns the rule set of a property (followed by its extras).
+func Get(id string) (PropFunc, bool) {
+	f, ok := registry[id]
+	if !ok {
+		return nil, false
+	}
+	ex := extras[id]
+	if len(ex) == 0 {
+		return f, true
+	}
+	return func(c *eng.Ctx) {
+		defer func() {
+			for _, e := range ex {
+				e(c)
+			}
+		}()
+		f(c)
+	}, true
+}
 
 // Fixtures returns the fixtures of a property.
 func Fixtures(id string) []func(c *eng.Ctx) { return fixtures[id] }
